@@ -30,6 +30,49 @@ THEOREMS = [
     'Sbepp.Rt.DynArray.wrapLen_eq_wrap',
     'Sbepp.Spec.Vec.apply_post',
     'Sbepp.Spec.Vec.length_apply',
+    # the same statements for the definitions extracted from sbepp.hpp (extract/methods_dynarray.py) ...
+    'Sbepp.Properties.C13.size_spec_extracted',
+    'Sbepp.Properties.C13.size_bytes_spec_extracted',
+    'Sbepp.Properties.C13.op_refine_extracted',
+    'Sbepp.Properties.C13.erase_to_end_valid_extracted',
+    'Sbepp.Properties.C13.ops_refine_extracted',
+    'Sbepp.Properties.C13.bounded_by_buffer_extracted',
+    'Sbepp.Properties.C13.push_back_bounded_extracted',
+    # ... and the tie: extracted member function = hand model, one theorem per member function
+    'Sbepp.Tie.DynArray.get_value_tie',
+    'Sbepp.Tie.DynArray.sbe_size_tie',
+    'Sbepp.Tie.DynArray.size_tie',
+    'Sbepp.Tie.DynArray.data_unchecked_tie',
+    'Sbepp.Tie.DynArray.data_checked_tie',
+    'Sbepp.Tie.DynArray.data_tie',
+    'Sbepp.Tie.DynArray.begin_tie',
+    'Sbepp.Tie.DynArray.end_tie',
+    'Sbepp.Tie.DynArray.empty_tie',
+    'Sbepp.Tie.DynArray.operator_index_tie',
+    'Sbepp.Tie.DynArray.front_tie',
+    'Sbepp.Tie.DynArray.size_bytes_tie',
+    'Sbepp.Tie.DynArray.resize_n_di_tie',
+    'Sbepp.Tie.DynArray.clear_tie',
+    'Sbepp.Tie.DynArray.resize_n_v_tie',
+    'Sbepp.Tie.DynArray.resize_n_tie',
+    'Sbepp.Tie.DynArray.push_back_tie',
+    'Sbepp.Tie.DynArray.pop_back_tie',
+    'Sbepp.Tie.DynArray.erase_it_tie',
+    'Sbepp.Tie.DynArray.erase_it_it_tie',
+    'Sbepp.Tie.DynArray.insert_it_v_tie',
+    'Sbepp.Tie.DynArray.insert_it_n_v_tie',
+    'Sbepp.Tie.DynArray.insert_impl_input_tie',
+    'Sbepp.Tie.DynArray.insert_impl_forward_tie',
+    'Sbepp.Tie.DynArray.insert_it_in_in_tie',
+    'Sbepp.Tie.DynArray.insert_it_il_tie',
+    'Sbepp.Tie.DynArray.assign_n_v_tie',
+    'Sbepp.Tie.DynArray.assign_in_in_tie',
+    'Sbepp.Tie.DynArray.assign_il_tie',
+    'Sbepp.Tie.DynArray.assign_string_tie',
+    'Sbepp.Tie.DynArray.assign_range_tie',
+    'Sbepp.Tie.DynArray.assign_range_SBEPP_HAS_RANGES_tie',
+    'Sbepp.Tie.DynArray.stepE_tie',
+    'Sbepp.Tie.DynArray.runOpsE_tie',
 ]
 
 SIGMA = [0x61, 0x80, 0xff]
@@ -704,6 +747,9 @@ def run(chk):
     correspond(chk, configs_for(chk.tier))
     if chk.failed_obligations and not chk.violations:
         chk.report_unproved('theorem', chk.failed_obligations)
+    xfail = ((chk.extract_report or {}).get('parts', {}).get('methods_dynarray', {}) or {}).get('failed')
+    if xfail and not chk.violations:
+        chk.report_unproved('extraction', {'part': 'methods_dynarray', 'failed': xfail})
     chk.assumptions += [
         'std::copy / std::copy_backward / std::fill_n / std::copy_n on single-byte elements are modelled by their '
         'specification (block move), with the overlap precondition as an explicit UB outcome; a self-copy '
